@@ -54,6 +54,16 @@ FILES = ["zz_verif_c03_test.go", "zz_verif_c03net_test.go", "zz_verif_c03gen_tes
 OVERLAY = {"server/" + f: "server/" + f for f in FILES}
 
 
+def normalize(line):
+    """The store left by a process that died of a panic on the download goroutine is racy (the dying
+    process may still run the verify loop): such an attempt is always the last of its history and only its
+    outcome class and request counts are compared."""
+    segs = line.split(" || ")
+    if segs and segs[-1].startswith("panic:challenge "):
+        segs[-1] = " ".join(segs[-1].split(" ")[:2])
+    return " || ".join(segs)
+
+
 def run(ctx):
     ctx.lean_check(MODULES, THEOREMS)
     env = {"VERIF_N": ctx.scale(400, 12000), "VERIF_NCH": ctx.scale(2000, 60000),
@@ -64,7 +74,7 @@ def run(ctx):
     if rc != 0:
         ctx.violation("driver-failed", "", out[-1500:], no_input=True)
     ctx.read_stats(outdir)
-    ctx.l1(outdir)
+    ctx.l1(outdir, normalize=normalize)
     ctx.classify(ctx.l2(outdir))
     if not ctx.replay:
         rc2, out2, outdir2 = ctx.go_test("./server/", OVERLAY, "^TestVerifC03Liveness$", timeout=600)
